@@ -49,7 +49,7 @@ package pebble
 //@   requires fs != nil
 //@   ensures [C04.mkdir.durable] result == nil ==> fs.vHas[dir] && fs.dHas[dir]
 //@   ensures forall p string :: old(fs.dHas[p]) && old(fs.vHas[p]) ==> fs.dHas[p]
-//@   ensures forall d string :: fs.dCur[d] == old(fs.dCur[d]) || d == parentOf(dir)
+//@   ensures forall d string :: fs.dCur[d] == old(fs.dCur[d]) || (d == parentOf(dir) && fs.dCur[d] == fs.vCur[d])
 //@   modifies fs.vHas, fs.dHas, fs.dCur
 
 // SaveCurrentDBDirName: writes and fsyncs d/current.updating holding the name (md5 + write: ASSUMED)
@@ -81,8 +81,10 @@ package pebble
 //@   results name, err
 //@   ensures err == nil ==> name == fs.vCur[dir]
 //@   modifies nothing
+// "<random>_<nanoseconds>": never one of the fixed file names
 //@ func GetNewRandomDBDirName
 //@   assumed
+//@   ensures result != "" && result != "current" && result != "current.updating"
 //@   modifies nothing
 // CleanupNodeDataDir removes everything in dir except `current` and the directory it names
 //@ func CleanupNodeDataDir
